@@ -19,7 +19,7 @@ PROPS["C09"] = dict(
          "at 0, no value more than twice, counter 0 after exit; the last instruction of a nested block may in its final iteration "
          "see the enclosing loop's counter): the statement gives N decrements over N+1 iterations and does not fix whether the "
          "observing instruction runs before or after the step; optional rep inside a block; optional bkrepsto;bkreprst ([arRn2]/[sp]) pair inside the running loop; stand-alone bkrepsto;bkreprst "
-         "from random loop states bcn 0..4 with the stale frame clobbered in between. distinct_nontrivial = distinct (form, depth, "
+         "from random loop states bcn 0..4 with the stale frame clobbered in between. One program in eight puts the outermost loop instruction on the 64K page boundary. distinct_nontrivial = distinct (form, depth, "
          "level, count class, page, last instruction length) keys executed and compared",
     floors={Q: _c09_q, T: _c09_t},
     ready=True,
